@@ -27,7 +27,9 @@ from harness.translate import status as trs
 THEOREMS = ["table_pollClaim", "table_runOk", "table_runRetry", "table_killReroute", "table_recoverPending", "table_client",
             "operations_end_recoverable", "recoverable_leads_to_final", "unprotected_is_stuck",
             # Props/C03Wakeup.lean: re-queueing (status, then push) against any number of concurrent polls never loses the message
-            "inv_step", "status_then_push_never_loses", "status_then_push_reachable", "push_then_status_loses", "programs_write_status_before_push"]
+            "inv_step", "status_then_push_never_loses", "status_then_push_reachable", "push_then_status_loses", "programs_write_status_before_push",
+            # Props/C03Lazy.lean: a lazily consumed poll against the re-queues of what it hands out (skip set read from the source)
+            "lazy_inv_step", "lazy_poll_never_strands", "marking_claimed_ids_strands_them", "code_adds_to_the_skip_set_only_on_wait_graph_claims"]
 
 RELEVANT = ("register", "transition", "push", "pop")
 
@@ -523,6 +525,9 @@ def run(ctx: Ctx) -> None:
     def gen() -> dict[str, str]:
         g = trs.gen()
         g.update(trp.gen(ctx.tmp))
+        from harness.translate import pollskip
+
+        g.update(pollskip.gen())
         return g
 
     lean_stage(ctx, gen, THEOREMS)
